@@ -50,7 +50,7 @@ private theorem find_map_ne (e e' : Edge) (c : PI) (h : e' ≠ e) : ∀ l : List
     by_cases hp : p.1 = e
     · have h1 : (e == e') = false := by simpa using fun h' => h h'.symm
       have h2 : (p.1 == e') = false := by rw [hp]; exact h1
-      simp only [hp, beq_self_eq_true, if_true, h1, h2]
+      simp only [hp, beq_self_eq_true, if_true, h1]
       exact find_map_ne e e' c h l
     · have h1 : (p.1 == e) = false := by simpa using hp
       simp only [h1, Bool.false_eq_true, if_false]
